@@ -430,7 +430,8 @@ func shrinkOps(p Pair) []func(*Pair) {
 						}
 					}),
 					onC(func(c *Col, t *Table) {
-						if !c.AutoInc && !t.Strict {
+						// (not on key columns: a text key would ADD the feature "pk-non-integer")
+						if !c.AutoInc && !t.Strict && !t.InPK(c.Name) {
 							c.Type = "text"
 							if c.Default != nil && c.Default.Kind != "expr" {
 								c.Default = DefaultForType("text", 0)
